@@ -114,6 +114,9 @@ def link_base(r):
     return 0
 
 
+# generic robustness battery: renaming every local/parameter in these files must not change any verdict
+RENAME_LOCALS = ['src/ptree-rb.c', 'src/ptree-avl.c']
+
 SELFTEST = [
     dict(id="rb-insert-no-balance", file="src/ptree-rb.c", expect="C13.1",
          old="\t/* Balance the tree */\n\tpp_tree_rb_balance_insert ((PTreeRBNode *) *cur_node, root_node);\n", new=""),
